@@ -236,13 +236,14 @@ func lastPort(c *h.Case, variant int) {
 			go rival(s)
 		}
 		wg.Wait()
-		won := 0
+		won, unk := 0, false
 		for s := 2; s < nRivals+2; s++ {
 			if outs[s].OK {
 				won++
 			}
+			unk = unk || outs[s].Unk
 		}
-		if won != 1 {
+		if won != 1 && !unk {
 			c.Violation("last-port-not-granted-exactly-once-"+proto, "%d sessions asked for the last free %s port %d at once (requests %v): %d were acknowledged", nRivals, proto, last, reqs[2:], won)
 		}
 	}
